@@ -51,6 +51,9 @@ def encode_event(e, d="out"):
         return {"e": k, "ok": e["ok"]}
     if k == "scancel":
         return {"e": k, "b": e["b"]}
+    if k == "cop":
+        return {x: e[x] for x in ("e", "pid", "op", "hcver", "hjver", "dcver", "djver", "exc", "changed", "wcfg", "wjs", "ok",
+                                  "before", "host", "loaded")}
     if k in FAULT_EVENTS:
         return {"e": k}
     if k == "end":
